@@ -1437,6 +1437,10 @@ def c16_programs(tier, sd):
                  "blocks": [["bz", "c", [["foreach", ["l"], "i", [E(["<", ["it", "i"], lit(9)]), ["raise", "in-foreach"]]]]]]})
     bads.append({"name": "Bad6", "fields": [fld("a", ("u", 8)), fld("b", ("u", 8))],
                  "blocks": [["ba", "c", [E(["<", a, b])]], ["bd", "dyn", [E(["<", a, lit(3)]), ["raise", "in-dynamic"]]]]})
+    bads.append({"name": "Bad8", "fields": [fld("a", ("u", 8)), fld("b", ("u", 8))],
+                 "blocks": [["bz", "c", [["implies", [">", b, lit(3)], [E(["==", a, lit(1)]), ["raise", "in-implies"]]]]]]})
+    bads.append({"name": "Bad9", "fields": [fld("a", ("u", 8)), fld("b", ("u", 8))],
+                 "blocks": [["ba", "c", [E(["<", a, b])]], ["bz", "c", [["if", [[[">", b, lit(3)], [["implies", ["<", a, lit(9)], [["raise", "in-nested-implies"]]]]]], None]]]]})
     bads.append({"name": "Bad7", "fields": [fld("a", ("u", 8)), fld("b", ("u", 8))], "blocks": [["ba", "c", [E(["<", a, b])]]], "ctor_raise": True})
     Outer = {"name": "Outer", "fields": [["s", "obj", "Probe", True], fld("k", ("u", 8))], "blocks": [["ob", "c", [E(["<", F("k"), F("s", "b")])]]]}
     pr = {"enums": {}, "classes": [Probe] + bads + [Outer]}
@@ -1485,7 +1489,7 @@ def c16_programs(tier, sd):
     # failing calls on objects whose constraints reach fields only through dynamic blocks of list elements (solver handles!)
     out += [dict(p, tag="fault_" + p["tag"]) for p in c06_programs(tier, sd) if p["tag"] == "inline_fail"]
     # seeded mixtures
-    faults = [["new_fault", ["x", "obj", "Bad%d" % k]] for k in range(8)] + \
+    faults = [["new_fault", ["x", "obj", "Bad%d" % k]] for k in range(10)] + \
              [["randomize_with", ["p"], unsat], ["randomize_with", ["p"], [E(["<", a, lit(6)]), ["raise", "s"]]],
               ["seq", [["set", ["p", "ff"], 1], ["randomize", ["p"]], ["set", ["p", "ff"], 0]]],
               ["seq", [["set", ["p", "ff"], 2], ["randomize", ["p"]], ["set", ["p", "ff"], 0]]]]
@@ -1565,6 +1569,30 @@ def c17_programs(tier, sd):
         ops.append(["randomize", ["top"]])
         out.append({"tag": "hooks_random", "desc": "seeded random hook history #%d (s1 rand=%s s2 rand=%s list rand=%s)" % (i, r1, r2, rl), "prog": pr,
                     "world": [["top", "obj", "Top"]], "ops": ops})
+    # hooks defined only in a derived class (the decorated base has none); list content replaced by the same number of other
+    # objects between calls; calls in which nothing is left to solve
+    Base0 = {"name": "Base0", "fields": [fld("p", ("u", 8)), fld("n", ("u", 8), False)], "blocks": [["bb", "c", [E(["<", F("p"), F("n")])]]]}
+    Der0 = {"name": "Der0", "base": "Base0", "fields": [fld("q", ("u", 8))], "blocks": [["db", "c", [E(["!=", F("q"), F("p")])]]],
+            "pre_randomize": [["set", ["n"], 40]], "post_randomize": []}
+    TopD = {"name": "TopD", "fields": [["d", "obj", "Der0", True], ["k", "obj", "Der0", False], ["l", "list", ["obj", "Der0"], 2, True, False], fld("a", ("u", 8))],
+            "blocks": [["tb", "c", [E(["<", F("a"), F("d", "p")])]]], "pre_randomize": [], "post_randomize": []}
+    prd = {"enums": {}, "classes": [Base0, Der0, TopD]}
+    out.append({"tag": "hooks_derived", "desc": "hooks defined in the derived class only", "prog": prd, "world": [["top", "obj", "TopD"], ["solo", "obj", "Der0"]],
+                "ops": [["set", ["top", "d", "n"], 3], ["set", ["solo", "n"], 5], ["randomize", ["top"]], ["randomize", ["solo"]], ["vsc_randomize", [["top", "d"]]],
+                        ["randomize_with", ["solo"], [E([">", F("p"), lit(2)])]], ["vsc_randomize", [["top", "l", 1]]], ["randomize", ["top"]]]})
+    out.append({"tag": "hooks_list_replaced", "desc": "list of hooked objects: content replaced by as many other objects", "prog": prd, "world": [["top", "obj", "TopD"]],
+                "ops": [["randomize", ["top"]], ["list_clear", ["top", "l"]], ["list_append", ["top", "l"], 0], ["list_append", ["top", "l"], 0], ["randomize", ["top"]],
+                        ["list_clear", ["top", "l"]], ["list_append", ["top", "l"], 0], ["list_append", ["top", "l"], 0], ["randomize_with", ["top"], [E(["<", F("a"), lit(30)])]],
+                        ["vsc_randomize", [["top"]]]]})
+    Free = {"name": "Free", "fields": [fld("a", ("u", 8)), fld("b", ("u", 8)), fld("n", ("u", 8), False)], "blocks": [],
+            "pre_randomize": [["set", ["n"], 9]], "post_randomize": []}
+    Free2 = {"name": "Free2", "fields": [fld("a", ("u", 8)), fld("n", ("u", 8), False), ["f", "obj", "Free", True]], "blocks": [["fb", "c", [E(["<", F("a"), lit(200)])]]],
+             "pre_randomize": [], "post_randomize": []}
+    out.append({"tag": "hooks_nothing_to_solve", "desc": "every random field frozen / no constraints: hooks still run once each", "prog": {"enums": {}, "classes": [Free, Free2]},
+                "world": [["top", "obj", "Free"], ["t2", "obj", "Free2"]],
+                "ops": [["randomize", ["top"]], ["rand_mode", ["top", "a"], False], ["rand_mode", ["top", "b"], False], ["randomize", ["top"]], ["randomize", ["top"]],
+                        ["vsc_randomize", [["top"]]], ["randomize_with", ["top"], []], ["rand_mode", ["top", "a"], True], ["randomize", ["top"]],
+                        ["rand_mode", ["t2", "a"], False], ["rand_mode", ["t2", "f", "a"], False], ["rand_mode", ["t2", "f", "b"], False], ["randomize", ["t2"]], ["randomize", ["t2"]]]})
     # random-size lists: of objects with hooks (solved to fewer elements than were appended), and a scalar one whose size depends on
     # a non-random field that pre_randomize assigns
     for nobj, bound in ((4, 3), (3, 1), (2, 2)):
@@ -1669,6 +1697,14 @@ def c20_programs(tier, sd):
     body = [["foreach", ["l"], "i", [E(["<", ["it", "i"], b])]], ["order", [["l"]], [["b"]]], E(["<", a, F("l", 0)]), ["order", [["a"]], [["l"]]]]
     out.append({"tag": "order_list", "desc": "order a -> list -> b", "prog": one_class(lf, body), "world": [["top", "obj", "Top"]],
                 "ops": [["randomize", ["top"]], ["randomize", ["top"]]]})
+    lf2 = [["l", "list", ["u", 2], 2, True, False], fld("b", ("u", 4))]
+    body2 = [["foreach", ["l"], "i", [["if", [[["==", ["it", "i"], lit(0)], [E(["==", b, lit(1)])]]], None]]], ["order", [["l"]], [["b"]]]]
+    out.append({"tag": "order_list", "desc": "order list -> b, the list grows between calls", "prog": one_class(lf2, body2), "world": [["top", "obj", "Top"]],
+                "ops": [["randomize", ["top"]], ["list_append", ["top", "l"], 0], ["randomize", ["top"]], ["list_append", ["top", "l"], 0], ["list_append", ["top", "l"], 0],
+                        ["randomize", ["top"]], ["randomize_with", ["top"], [E(["!=", b, lit(2)])]]]})
+    body3 = [["foreach", ["l"], "i", [E(["<=", ["it", "i"], F("a")])]], ["order", [["a"]], [["l"]]]]
+    out.append({"tag": "order_list", "desc": "order a -> list (list on the 'after' side), the list grows", "prog": one_class(lf2 + [fld("a", ("u", 2))], body3),
+                "world": [["top", "obj", "Top"]], "ops": [["randomize", ["top"]], ["list_append", ["top", "l"], 0], ["randomize", ["top"]], ["randomize", ["top"]]]})
     # an unsatisfiable system with ordering
     out.append({"tag": "order", "desc": "ordered but unsatisfiable", "prog": one_class(f2, [E(["<", a, b]), E(["<", b, a]), O(["a"], ["b"])]),
                 "world": [["top", "obj", "Top"]], "ops": [["randomize", ["top"]]]})
@@ -1719,6 +1755,15 @@ def c04_programs(tier, sd):
                        ["list_append", ["top", "l"], 9], ["list_append", ["top", "l"], 8], ["vsc_randomize", [["top"]]]]
                 out.append({"tag": "randsz:" + bn, "desc": "randsz %s%d size %s body %s" % (ety[0], ety[1], sc, bn), "prog": pr,
                             "world": [["top", "obj", "Top"]], "ops": ops})
+    # lists of objects: content replaced (clear + append, item assignment) between calls
+    ItemS = {"name": "ItemS", "fields": [fld("x", ("u", 8)), fld("y", ("u", 8))], "blocks": [["ib", "c", [E(["<", F("x"), F("y")])]]]}
+    TopO = {"name": "Top", "fields": [["items", "list", ["obj", "ItemS"], 3, True, False], fld("a", ("u", 8))],
+            "blocks": [["tb", "c", [["foreach", ["items"], "i", [E(["<", ["it", "i", "x"], lit(50)]), E([">", ["it", "i", "y"], ["idx", "i"]])]]]]]}
+    out.append({"tag": "obj_list:replaced", "desc": "object list cleared and refilled, items assigned", "prog": {"enums": {}, "classes": [ItemS, TopO]}, "world": [["top", "obj", "Top"]],
+                "ops": [["randomize", ["top"]], ["list_clear", ["top", "items"]], ["list_append", ["top", "items"], 0], ["list_append", ["top", "items"], 0], ["randomize", ["top"]],
+                        ["set", ["top", "items", 0, "x"], 200], ["set", ["top", "items", 1, "x"], 201], ["randomize", ["top"]], ["list_set_obj", ["top", "items"], 1],
+                        ["set", ["top", "items", 1, "x"], 222], ["randomize", ["top"]], ["list_clear", ["top", "items"]], ["randomize", ["top"]], ["list_append", ["top", "items"], 0],
+                        ["randomize_with", ["top"], [E(["<", F("a"), lit(9)])]]]})
     # seeded random structured programs over a random-size list
     out += random_struct_programs(rnd, 30 if tier == "quick" else 2000, randsz=True)
     # fixed-size lists with list operations between calls
@@ -1816,6 +1861,12 @@ def c15_programs(tier, sd):
     lf = [["l", "list", ["u", 8], 3, True, False]]
     pr = one_class(lf, [["foreach", ["l"], "i", [["dist", ["it", "i"], [[lit(1), 1], [lit(5), 0], [["rng", lit(10), lit(12)], 2]]]]]])
     out.append({"tag": "dist_list", "desc": "dist on list elements", "prog": pr, "world": [["top", "obj", "Top"]], "ops": [["randomize", ["top"]], ["randomize", ["top"]]]})
+    lw = [["l", "list", ["u", 8], 3, True, False], ["w1", "list", ["u", 8], 3, False, False], ["w2", "list", ["u", 8], 3, False, False]]
+    pr = one_class(lw, [["foreach", ["l"], "i", [["dist", ["it", "i"], [[lit(1), F("w1", ["idx", "i"])], [["rng", lit(10), lit(12)], F("w2", ["idx", "i"])], [lit(50), 1]]]]]])
+    out.append({"tag": "dist_list", "desc": "dist on list elements with weights indexed by the foreach index", "prog": pr, "world": [["top", "obj", "Top"]],
+                "ops": [["set", ["top", "w1", 0], 0], ["set", ["top", "w1", 1], 3], ["set", ["top", "w1", 2], 1], ["set", ["top", "w2", 0], 2], ["set", ["top", "w2", 1], 0],
+                        ["set", ["top", "w2", 2], 4], ["randomize", ["top"]], ["randomize", ["top"]], ["set", ["top", "w1", 2], 0], ["set", ["top", "w2", 0], 0], ["randomize", ["top"]],
+                        ["randomize_with", ["top"], [E(["!=", F("l", 0), lit(50)])]]]})
     return out
 
 
